@@ -367,6 +367,17 @@ class Ctx:
     def finish(self):
         wall = round(time.time() - self.t0, 2)
         cov = dict(self.cov)
+        # Obligations that could not be discharged ONLY because a listed known finding makes them false on the
+        # unchanged tree (a certified anchor / correspondence case sitting on a recorded defect) are reported
+        # separately; anything else undischarged without a reported violation is a machinery error.
+        if self.discharged < self.obligations and not self.violations:
+            if self.known_hit:
+                cov["obligations_excused_by_known_findings"] = int(self.obligations - self.discharged)
+                self.obligations = self.discharged
+            else:
+                self.violation({"obligation": "evidence accounting", "obligations": self.obligations,
+                                "discharged": self.discharged}, False,
+                               "some proof/correspondence obligations were not discharged and no violation was reported")
         cov["obligations"] = int(self.obligations)
         cov["discharged"] = int(self.discharged)
         cov.setdefault("evaluations", 0)
